@@ -61,6 +61,7 @@ type State struct {
 	wgAdded   map[string]Term
 	loopHeap  map[*ssa.BasicBlock]*Heap
 	names     map[string]ssa.Value // latest SSA value bound to each source variable along the path executed so far
+	glocals   map[string]TV // ghost locals of the function under verification
 	lp        *lpState // linearizable mode: the candidate linearization point of this path
 	loopVariant map[*ssa.BasicBlock]Term // value of the loop's decreases expression at the head of the current iteration
 	closOrd   int
@@ -93,6 +94,10 @@ func (s *State) clone() *State {
 		n.wgAdded[k] = v
 	}
 	n.lp = s.lp
+	n.glocals = map[string]TV{}
+	for k, v := range s.glocals {
+		n.glocals[k] = v
+	}
 	n.names = map[string]ssa.Value{}
 	for k, v := range s.names {
 		n.names[k] = v
@@ -429,6 +434,9 @@ func (vc *VC) fnEnv(st *State, old *Heap) *Env {
 		e.vars[p.Name()] = TV{T: st.vals[p].T, S: goSType(p.Type())}
 	}
 	e.locals = func(ce *Env, name string) (TV, bool) {
+		if tv, ok := st.glocals[name]; ok {
+			return tv, true
+		}
 		for _, fv := range fn.FreeVars {
 			if fv.Name() == name {
 				et, _ := derefType(fv.Type())
